@@ -4,7 +4,8 @@
 namespace sim {
 
 TextPool g_pool;
-int g_pseudo_bias = 0;      // generator hint: the run is about the pseudo-glyph map, put its characters into most texts
+int g_pseudo_bias = 0;
+u32 g_pseudo_focus = 0;      // the character whose pseudo-map key was duplicated by the last PSEUDOROT      // generator hint: the run is about the pseudo-glyph map, put its characters into most texts
 
 static void decode_utf8(const Bytes &b, std::vector<u32> &out) {
     std::vector<size_t> base; Bytes z = b; z.push_back(0);
@@ -291,6 +292,7 @@ Fault gen_pseudo_fault(Rng &r, const FontImage &fi) {
         unsigned i = r.below(np), j = r.below(np); if (i == j) j = (i + 1) % np;
         size_t src = g.lo + 8 + 6 * size_t(i), dst = g.lo + 8 + 6 * size_t(j);
         for (int q = 0; q < 4; ++q) { f.a.push_back(i64(dst + size_t(q))); f.a.push_back(t[src + size_t(q)]); }
+        g_pseudo_focus = be32(&t[src]);
         break;
     }
     return f;
